@@ -6,6 +6,7 @@ import (
 	"go/token"
 	"go/types"
 	"sort"
+	"strconv"
 	"strings"
 
 	"golang.org/x/tools/go/ssa"
@@ -218,6 +219,30 @@ func (c *Ctx) terminalTables() {
 			completes[s.K] = true
 		}
 	}
+	// the release loop's dispatch as a table keyed by the state: every key is completed / handed on behind the ok test
+	for _, b := range r.Release.Blocks {
+		for _, in := range b.Instrs {
+			lk, ok := in.(*ssa.Lookup)
+			if !ok || !lk.CommaOk || !isStateLoad(lk.Index) {
+				continue
+			}
+			u, ok := lk.X.(*ssa.UnOp)
+			if !ok {
+				continue
+			}
+			gm, ok := u.X.(*ssa.Global)
+			if !ok {
+				continue
+			}
+			if tab, ok := globalMapInit(gm); ok {
+				for k := range tab {
+					if kv, err := strconv.ParseInt(k, 10, 64); err == nil {
+						completes[kv] = true
+					}
+				}
+			}
+		}
+	}
 	c.R.Count("terminal-state comparisons in Acked", len(sites))
 	c.R.Floor("terminal-state comparisons in Acked", len(sites), 5)
 	for k := int64(1); k <= 14; k++ {
@@ -290,6 +315,20 @@ func (c *Ctx) releaseLoopContract(prop string) {
 		if iff, ok := n.Instr.(*ssa.If); ok {
 			if a, _ := edgeAtom(iff, 0); strings.HasPrefix(a, "eq:") && strings.Contains(a, ".State:") {
 				stateAtom = a[:strings.LastIndex(a, ":")]
+			}
+		}
+	}
+	if stateAtom == "" {
+		// the dispatch written as a table: `x, ok := table[entry.State]` on a package-level map
+		for _, n := range g.All() {
+			if lk, ok := n.Instr.(*ssa.Lookup); ok && lk.CommaOk {
+				if u, ok := lk.X.(*ssa.UnOp); ok {
+					if _, isG := u.X.(*ssa.Global); isG {
+						if what := describeOperand(lk.Index); strings.Contains(what, ".State") {
+							stateAtom = "eq:" + what
+						}
+					}
+				}
 			}
 		}
 	}
